@@ -1246,17 +1246,6 @@ Proof.
   split; [apply ex_names_ok|]. split; [apply perm_swap|]. split; vm_compute; [reflexivity|discriminate].
 Qed.
 
-(* REFUTED (equality of the returned slices): MetricSorter.Less only compares label VALUES, so two metrics of one family
-   with different label names and equal values are returned in arrival order.  Confirmed on the real code. *)
-Lemma metric_order_depends_on_arrival_refuted_lemma :
-  exists lg ped ids arr1 arr2, names_ok arr1 /\ Permutation arr1 arr2 /\
-    snd (gather lg ped ids arr1) = [] /\ snd (gather lg ped ids arr2) = [] /\
-    fst (gather lg ped ids arr1) <> fst (gather lg ped ids arr2).
-Proof.
-  exists false, false, [], (map ex_e [ex_a; ex_b]), (map ex_e [ex_b; ex_a]).
-  split; [apply ex_names_ok|]. split; [apply perm_swap|]. repeat split; vm_compute; try reflexivity. discriminate.
-Qed.
-
 (* ------------------------------------------------------------------ *)
 (* what the boolean specification checker means                        *)
 (* ------------------------------------------------------------------ *)
@@ -1635,4 +1624,311 @@ Proof.
   { rewrite P2. rewrite <- map_app. apply Permutation_map. exact P1. }
   destruct (sub_multiset_perm nm_eqb nm_eqb_eq _ _ _ P) as (rest' & S & PR). rewrite S.
   apply Nat.eqb_eq. rewrite <- L. rewrite <- (Permutation_length PR). apply map_length.
+Qed.
+
+(* ------------------------------------------------------------------ *)
+(* MetricSorter.Less is a strict total order on metrics with distinct (labels, timestamp) *)
+(* ------------------------------------------------------------------ *)
+Lemma elt_lt_none p q : elt_lt p q = None <-> p = q.
+Proof.
+  destruct p as [n v], q as [n' v']. unfold elt_lt. simpl. split.
+  - destruct (str_eqb n n') eqn:E1; simpl; [|discriminate]. destruct (str_eqb v v') eqn:E2; simpl; [|discriminate].
+    intros _. apply str_eqb_eq in E1, E2. subst. reflexivity.
+  - intros H. inversion H; subst. rewrite !str_eqb_refl. reflexivity.
+Qed.
+
+Lemma elt_lt_trans p q r : elt_lt p q = Some true -> elt_lt q r = Some true -> elt_lt p r = Some true.
+Proof.
+  destruct p as [n1 v1], q as [n2 v2], r as [n3 v3]. unfold elt_lt. simpl.
+  destruct (str_eqb n1 n2) eqn:E12; simpl.
+  - apply str_eqb_eq in E12. subst n2. destruct (str_eqb v1 v2) eqn:F12; simpl; [discriminate|]. intros H1.
+    destruct (str_eqb n1 n3) eqn:E13; simpl; [|auto].
+    destruct (str_eqb v2 v3) eqn:F23; simpl; [discriminate|]. intros H2.
+    injection H1 as H1. injection H2 as H2. pose proof (str_ltb_trans _ _ _ H1 H2) as T.
+    destruct (str_eqb v1 v3) eqn:F13; simpl; [|f_equal; exact T].
+    apply str_eqb_eq in F13. subst v3. rewrite str_ltb_irrefl in T. discriminate.
+  - intros H1. injection H1 as H1. destruct (str_eqb n2 n3) eqn:E23; simpl.
+    + apply str_eqb_eq in E23. subst n3. rewrite E12. simpl. intros _. f_equal. exact H1.
+    + intros H2. injection H2 as H2. pose proof (str_ltb_trans _ _ _ H1 H2) as T.
+      destruct (str_eqb n1 n3) eqn:E13; simpl; [|f_equal; exact T].
+      apply str_eqb_eq in E13. subst n3. rewrite str_ltb_irrefl in T. discriminate.
+Qed.
+
+Lemma elt_lt_true_rev p q : elt_lt p q = Some true -> elt_lt q p = Some false.
+Proof.
+  destruct p as [n v], q as [n' v']. unfold elt_lt. simpl.
+  destruct (str_eqb n n') eqn:E1; simpl.
+  - apply str_eqb_eq in E1. subst n'. rewrite str_eqb_refl. simpl.
+    destruct (str_eqb v v') eqn:E2; simpl; [discriminate|]. intros H. injection H as H.
+    assert (str_eqb v' v = false) as -> by (apply str_eqb_neq; apply str_eqb_neq in E2; congruence). simpl.
+    rewrite (str_ltb_asym _ _ H). reflexivity.
+  - intros H. injection H as H.
+    assert (str_eqb n' n = false) as -> by (apply str_eqb_neq; apply str_eqb_neq in E1; congruence). simpl.
+    rewrite (str_ltb_asym _ _ H). reflexivity.
+Qed.
+
+Lemma elt_lt_false_rev p q : elt_lt p q = Some false -> elt_lt q p = Some true.
+Proof.
+  destruct p as [n v], q as [n' v']. unfold elt_lt. simpl.
+  destruct (str_eqb n n') eqn:E1; simpl.
+  - apply str_eqb_eq in E1. subst n'. rewrite str_eqb_refl. simpl.
+    destruct (str_eqb v v') eqn:E2; simpl; [discriminate|]. intros H. injection H as H.
+    apply str_eqb_neq in E2.
+    assert (str_eqb v' v = false) as -> by (apply str_eqb_neq; congruence). simpl.
+    rewrite (str_ltb_neq_total _ _ E2 H). reflexivity.
+  - intros H. injection H as H. apply str_eqb_neq in E1.
+    assert (str_eqb n' n = false) as -> by (apply str_eqb_neq; congruence). simpl.
+    rewrite (str_ltb_neq_total _ _ E1 H). reflexivity.
+Qed.
+
+Lemma labels_lt_refl a : labels_lt a a = None.
+Proof. induction a as [|p a IH]; simpl; [reflexivity|]. rewrite (proj2 (elt_lt_none p p) eq_refl). exact IH. Qed.
+
+Lemma labels_lt_none_eq a : forall b, length a = length b -> labels_lt a b = None -> a = b.
+Proof.
+  induction a as [|p a IH]; intros [|q b] L H; simpl in *; try discriminate; [reflexivity|].
+  destruct (elt_lt p q) eqn:E; [discriminate|]. apply elt_lt_none in E. subst q. f_equal. apply IH; [lia|exact H].
+Qed.
+
+Lemma labels_lt_trans a : forall b c,
+  labels_lt a b = Some true -> labels_lt b c = Some true -> labels_lt a c = Some true.
+Proof.
+  induction a as [|p a IH]; intros [|q b] [|r c] H1 H2; simpl in *; try discriminate.
+  destruct (elt_lt p q) as [[|]|] eqn:E1; try discriminate.
+  - destruct (elt_lt q r) as [[|]|] eqn:E2; try discriminate.
+    + rewrite (elt_lt_trans _ _ _ E1 E2). reflexivity.
+    + apply elt_lt_none in E2. subst r. rewrite E1. reflexivity.
+  - apply elt_lt_none in E1. subst q. destruct (elt_lt p r) as [[|]|] eqn:E2; try discriminate; [reflexivity|].
+    eapply IH; eassumption.
+Qed.
+
+Lemma labels_lt_true_rev a : forall b, labels_lt a b = Some true -> labels_lt b a = Some false.
+Proof.
+  induction a as [|p a IH]; intros [|q b] H; simpl in *; try discriminate.
+  destruct (elt_lt p q) as [[|]|] eqn:E; try discriminate.
+  - rewrite (elt_lt_true_rev _ _ E). reflexivity.
+  - apply elt_lt_none in E. subst q. rewrite (proj2 (elt_lt_none p p) eq_refl). apply IH. exact H.
+Qed.
+
+Lemma labels_lt_false_rev a : forall b, labels_lt a b = Some false -> labels_lt b a = Some true.
+Proof.
+  induction a as [|p a IH]; intros [|q b] H; simpl in *; try discriminate.
+  destruct (elt_lt p q) as [[|]|] eqn:E; try discriminate.
+  - rewrite (elt_lt_false_rev _ _ E). reflexivity.
+  - apply elt_lt_none in E. subst q. rewrite (proj2 (elt_lt_none p p) eq_refl). apply IH. exact H.
+Qed.
+
+Lemma ts_lt_trans a b c : ts_lt a b = true -> ts_lt b c = true -> ts_lt a c = true.
+Proof.
+  destruct a, b, c; simpl; intros H1 H2; try discriminate; try reflexivity.
+  apply Z.ltb_lt in H1, H2. apply Z.ltb_lt. lia.
+Qed.
+
+Lemma metric_lt_trans a b c : metric_lt a b = true -> metric_lt b c = true -> metric_lt a c = true.
+Proof.
+  unfold metric_lt.
+  destruct (Nat.eqb (length (d_labels a)) (length (d_labels b))) eqn:L1;
+  destruct (Nat.eqb (length (d_labels b)) (length (d_labels c))) eqn:L2; simpl; intros H1 H2.
+  - apply Nat.eqb_eq in L1, L2.
+    assert (Nat.eqb (length (d_labels a)) (length (d_labels c)) = true) as -> by (apply Nat.eqb_eq; lia). simpl.
+    destruct (labels_lt (d_labels a) (d_labels b)) as [[|]|] eqn:E1; try discriminate;
+    destruct (labels_lt (d_labels b) (d_labels c)) as [[|]|] eqn:E2; try discriminate.
+    + rewrite (labels_lt_trans _ _ _ E1 E2). reflexivity.
+    + apply labels_lt_none_eq in E2; [|exact L2]. rewrite <- E2. rewrite E1. reflexivity.
+    + apply labels_lt_none_eq in E1; [|exact L1]. rewrite E1. rewrite E2. reflexivity.
+    + apply labels_lt_none_eq in E1; [|exact L1]. apply labels_lt_none_eq in E2; [|exact L2].
+      rewrite E1, E2. rewrite labels_lt_refl. eapply ts_lt_trans; eassumption.
+  - apply Nat.eqb_eq in L1. apply Nat.eqb_neq in L2. apply Nat.ltb_lt in H2.
+    assert (Nat.eqb (length (d_labels a)) (length (d_labels c)) = false) as -> by (apply Nat.eqb_neq; lia). simpl.
+    apply Nat.ltb_lt. lia.
+  - apply Nat.eqb_neq in L1. apply Nat.eqb_eq in L2. apply Nat.ltb_lt in H1.
+    assert (Nat.eqb (length (d_labels a)) (length (d_labels c)) = false) as -> by (apply Nat.eqb_neq; lia). simpl.
+    apply Nat.ltb_lt. lia.
+  - apply Nat.ltb_lt in H1, H2.
+    assert (Nat.eqb (length (d_labels a)) (length (d_labels c)) = false) as -> by (apply Nat.eqb_neq; lia). simpl.
+    apply Nat.ltb_lt. lia.
+Qed.
+
+Lemma metric_lt_asym a b : metric_lt a b = true -> metric_lt b a = false.
+Proof.
+  unfold metric_lt.
+  destruct (Nat.eqb (length (d_labels a)) (length (d_labels b))) eqn:L1; simpl; intros H.
+  - apply Nat.eqb_eq in L1.
+    assert (Nat.eqb (length (d_labels b)) (length (d_labels a)) = true) as -> by (apply Nat.eqb_eq; lia). simpl.
+    destruct (labels_lt (d_labels a) (d_labels b)) as [[|]|] eqn:E; try discriminate.
+    + rewrite (labels_lt_true_rev _ _ E). reflexivity.
+    + apply labels_lt_none_eq in E; [|exact L1]. rewrite E. rewrite labels_lt_refl.
+      destruct (d_ts a), (d_ts b); simpl in *; try discriminate; try reflexivity.
+      apply Z.ltb_lt in H. apply Z.ltb_ge. lia.
+  - apply Nat.eqb_neq in L1. apply Nat.ltb_lt in H.
+    assert (Nat.eqb (length (d_labels b)) (length (d_labels a)) = false) as -> by (apply Nat.eqb_neq; lia). simpl.
+    apply Nat.ltb_ge. lia.
+Qed.
+
+(* what MetricSorter.Less cannot tell apart has the same labels and timestamp *)
+Definition mkey (m : dmetric) : list label * option Z := (d_labels m, d_ts m).
+
+Lemma metric_lt_total a b : metric_lt a b = false -> metric_lt b a = false -> mkey a = mkey b.
+Proof.
+  unfold metric_lt, mkey.
+  destruct (Nat.eqb (length (d_labels a)) (length (d_labels b))) eqn:L1; simpl; intros H1.
+  - apply Nat.eqb_eq in L1.
+    assert (Nat.eqb (length (d_labels b)) (length (d_labels a)) = true) as -> by (apply Nat.eqb_eq; lia). simpl.
+    destruct (labels_lt (d_labels a) (d_labels b)) as [[|]|] eqn:E; try discriminate.
+    + rewrite (labels_lt_false_rev _ _ E). discriminate.
+    + apply labels_lt_none_eq in E; [|exact L1]. rewrite E. rewrite labels_lt_refl. intros H2. f_equal.
+      destruct (d_ts a), (d_ts b); simpl in *; try discriminate; try reflexivity.
+      apply Z.ltb_ge in H1, H2. f_equal. lia.
+  - apply Nat.eqb_neq in L1. apply Nat.ltb_ge in H1.
+    assert (Nat.eqb (length (d_labels b)) (length (d_labels a)) = false) as -> by (apply Nat.eqb_neq; lia). simpl.
+    intros H2. apply Nat.ltb_ge in H2. lia.
+Qed.
+
+(* insertion sort by a transitive, asymmetric order does not depend on the order of the input
+   as long as any two elements are comparable *)
+Section SortUnique.
+  Context {A : Type} (ltb : A -> A -> bool).
+  Hypothesis ltb_trans : forall a b c, ltb a b = true -> ltb b c = true -> ltb a c = true.
+  Hypothesis ltb_asym : forall a b, ltb a b = true -> ltb b a = false.
+
+  Lemma insert_comm_lt x y s : ltb x y = true -> insert ltb y (insert ltb x s) = insert ltb x (insert ltb y s).
+  Proof.
+    intros XY. induction s as [|z r IH]; simpl.
+    - rewrite XY. rewrite (ltb_asym _ _ XY). reflexivity.
+    - destruct (ltb z x) eqn:ZX.
+      + rewrite (ltb_trans _ _ _ ZX XY). simpl. rewrite ZX, (ltb_trans _ _ _ ZX XY). rewrite IH. reflexivity.
+      + destruct (ltb z y) eqn:ZY; simpl; rewrite ?XY, ?ZX, ?ZY, ?(ltb_asym _ _ XY); reflexivity.
+  Qed.
+
+  Lemma isort_perm_eq l l' :
+    Permutation l l' -> (forall x y, In x l -> In y l -> x = y \/ ltb x y = true \/ ltb y x = true) ->
+    isort ltb l = isort ltb l'.
+  Proof.
+    induction 1 as [|x l l' P IH|x y l|l l' l'' P1 IH1 P2 IH2]; intros T.
+    - reflexivity.
+    - simpl. rewrite IH; [reflexivity|]. intros a b Ia Ib. apply T; right; assumption.
+    - simpl. destruct (T x y (or_intror (or_introl eq_refl)) (or_introl eq_refl)) as [E|[L|L]].
+      + subst. reflexivity.
+      + apply insert_comm_lt. exact L.
+      + symmetry. apply insert_comm_lt. exact L.
+    - rewrite IH1 by exact T. apply IH2. intros a b Ia Ib.
+      apply T; eapply Permutation_in; try (symmetry; exact P1); assumption.
+  Qed.
+End SortUnique.
+
+Lemma metrics_comparable ms :
+  NoDup (map mkey ms) -> forall x y, In x ms -> In y ms -> x = y \/ metric_lt x y = true \/ metric_lt y x = true.
+Proof.
+  intros N x y Ix Iy.
+  destruct (metric_lt x y) eqn:A; [auto|]. destruct (metric_lt y x) eqn:B; [auto|]. left.
+  pose proof (metric_lt_total _ _ A B) as K.
+  clear A B. induction ms as [|m r IH]; [contradiction|]. simpl in N. inversion N; subst.
+  destruct Ix as [Ix|Ix], Iy as [Iy|Iy].
+  - congruence.
+  - subst m. exfalso. apply H1. rewrite K. apply in_map. exact Iy.
+  - subst m. exfalso. apply H1. rewrite <- K. apply in_map. exact Ix.
+  - apply IH; assumption.
+Qed.
+
+Lemma nodup_app_r {A} (a b : list A) : NoDup (a ++ b) -> NoDup b.
+Proof. induction a as [|x a IH]; simpl; intros N; [exact N|]. inversion N; subst. apply IH. assumption. Qed.
+
+Lemma nodup_app_l {A} (a b : list A) : NoDup (a ++ b) -> NoDup a.
+Proof.
+  induction a as [|x a IH]; simpl; intros N; [constructor|]. inversion N; subst. constructor; [|apply IH; assumption].
+  intros I. apply H1. apply in_or_app. left. exact I.
+Qed.
+
+Lemma family_mkeys_nodup fs f :
+  NoDup (map series_of (all_metrics fs)) -> In f fs -> NoDup (map mkey (f_metrics f)).
+Proof.
+  intros N I. apply in_split in I. destruct I as (r1 & r2 & ->).
+  rewrite all_metrics_app, all_metrics_cons in N. rewrite !map_app in N.
+  apply nodup_app_r in N. apply nodup_app_l in N.
+  rewrite map_map in N. simpl in N.
+  assert (E : map (fun m => series_of (f_name f, m)) (f_metrics f) =
+              map (fun k : list label * option Z => (f_name f, fst k, snd k)) (map mkey (f_metrics f))).
+  { rewrite map_map. reflexivity. }
+  rewrite E in N. eapply NoDup_map_inv. exact N.
+Qed.
+
+Lemma family_eq f g : hdr3 f = hdr3 g -> f_metrics f = f_metrics g -> f = g.
+Proof. destruct f, g. unfold hdr3. simpl. intros H1 H2. inversion H1. subst. reflexivity. Qed.
+
+Lemma forall2_eq {A} (l1 l2 : list A) : Forall2 eq l1 l2 -> l1 = l2.
+Proof. induction 1; [reflexivity|]. subst. reflexivity. Qed.
+
+(* the strong form: the same slices, including the order of the metrics inside every family *)
+Lemma gather_order_independent_exact_lemma lg ped ids arr1 arr2 :
+  names_ok arr1 -> Permutation arr1 arr2 ->
+  snd (gather lg ped ids arr1) = [] -> snd (gather lg ped ids arr2) = [] ->
+  fst (gather lg ped ids arr1) = fst (gather lg ped ids arr2).
+Proof.
+  intros NO1 PA E1 E2.
+  pose proof (gather_order_independent_lemma lg ped ids arr1 arr2 NO1 PA E1 E2) as SR.
+  assert (NO2 : names_ok arr2).
+  { intros e I. apply NO1. eapply Permutation_in; [symmetry; exact PA|exact I]. }
+  destruct (gather_valid_lemma lg ped ids arr1 NO1) as [V1 _].
+  destruct (valid_result_meaning_lemma _ _ V1) as (_ & _ & _ & ND1 & _).
+  unfold gather in *.
+  destruct (run lg ped ids arr1 ([], [])) as [[fs1 k1] er1].
+  destruct (run lg ped ids arr2 ([], [])) as [[fs2 k2] er2]. simpl in *.
+  apply forall2_eq. unfold same_result in SR.
+  assert (G : forall r1 r2, Forall2 (fun f g => hdr3 f = hdr3 g /\ Permutation (f_metrics f) (f_metrics g)) r1 r2 ->
+              (forall f, In f r1 -> In f (normalize fs1)) -> (forall g, In g r2 -> In g (normalize fs2)) -> Forall2 eq r1 r2).
+  { induction 1 as [|f g r1 r2 [HH PM] F IH]; intros I1 I2; constructor.
+    - apply family_eq; [exact HH|].
+      destruct (normalize_in _ _ (I1 f (or_introl eq_refl))) as (f0 & _ & Ef & _).
+      destruct (normalize_in _ _ (I2 g (or_introl eq_refl))) as (g0 & _ & Eg & _).
+      subst f g. simpl in *. apply isort_perm_eq; [apply metric_lt_trans|apply metric_lt_asym| |].
+      + rewrite <- (isort_perm metric_lt (f_metrics f0)). rewrite PM. apply isort_perm.
+      + apply metrics_comparable.
+        pose proof (family_mkeys_nodup _ _ ND1 (I1 _ (or_introl eq_refl))) as N. simpl in N.
+        eapply Permutation_NoDup; [apply Permutation_map; apply isort_perm|exact N].
+    - apply IH; intros x Ix; [apply I1|apply I2]; right; exact Ix. }
+  apply G; [exact SR|auto|auto].
+Qed.
+
+(* the metric names of the result are names of emitted Descs without error *)
+Lemma process_names lg reg e st st' o :
+  process_metric lg reg e st = (st', o) ->
+  forall n, In n (map f_name (fst st')) -> In n (map f_name (fst st)) \/ (n = e_name e /\ ds_err (e_desc e) = false).
+Proof.
+  intros H n I. destruct (ds_err (e_desc e)) eqn:DE.
+  - destruct st as [fs keys]. unfold process_metric in H. rewrite DE in H. inversion H; subst. left. exact I.
+  - destruct (process_hdr _ _ _ _ _ _ H) as [[Q|(ty & Q & _)] _].
+    + left. assert (map f_name (fst st') = map f_name (fst st)) as <-; [|exact I].
+      rewrite <- (map_map hdr3 (fun h => fst (fst h))). rewrite Q. rewrite map_map. reflexivity.
+    + assert (E : map f_name (fst st') = map f_name (fst st) ++ [e_name e]).
+      { rewrite <- (map_map hdr3 (fun h => fst (fst h))). rewrite Q. rewrite map_app. rewrite map_map. reflexivity. }
+      rewrite E in I. apply in_app_or in I. destruct I as [I|[I|[]]]; [left; exact I|right; split; [symmetry; exact I|reflexivity]].
+Qed.
+
+Lemma run_names lg ped ids arr : forall st st' errs,
+  run lg ped ids arr st = (st', errs) ->
+  forall n, In n (map f_name (fst st')) ->
+    In n (map f_name (fst st)) \/ exists e, In e arr /\ n = e_name e /\ ds_err (e_desc e) = false.
+Proof.
+  induction arr as [|e r IH]; intros st st' errs H n I; simpl in H.
+  - inversion H; subst. left. exact I.
+  - destruct (process_metric lg (reg_for ped ids e) e st) as [st1 o] eqn:P.
+    destruct (run lg ped ids r st1) as [st2 errs'] eqn:R. inversion H; subst st2 errs.
+    destruct (IH _ _ _ R n I) as [J|(x & Ix & Ex & Dx)].
+    + destruct (process_names _ _ _ _ _ _ P n J) as [K|[K1 K2]]; [left; exact K|].
+      right. exists e. split; [left; reflexivity|]. split; assumption.
+    + right. exists x. split; [right; exact Ix|]. split; assumption.
+Qed.
+
+(* guaranteed by NewDesc: a Desc without error carries a valid metric name *)
+Definition desc_names_valid (lg : bool) (arr : list emitted) : Prop :=
+  forall e, In e arr -> ds_err (e_desc e) = false -> metric_name_ok lg (e_name e) = true.
+
+Lemma gather_names_valid_lemma lg ped ids arr :
+  desc_names_valid lg arr -> family_names_ok lg (fst (gather lg ped ids arr)) = true.
+Proof.
+  intros DV. unfold gather. destruct (run lg ped ids arr ([], [])) as [st errs] eqn:R. simpl.
+  unfold family_names_ok. apply forallb_forall. intros f If.
+  destruct (normalize_in _ _ If) as (g & Ig & Eg & _). subst f. simpl.
+  destruct (run_names _ _ _ _ _ _ _ R (f_name g) (in_map f_name _ _ Ig)) as [[]|(e & Ie & En & De)].
+  rewrite En. apply DV; assumption.
 Qed.
